@@ -460,6 +460,7 @@ func c02main(c *Ctx) {
 		if vb.pkg {
 			slog.SetDefault(lg) // *Entry is a Logger the package functions know
 		}
+		longLine := false
 		id := fmt.Sprintf("c02id%dz", idx)
 		msg := id + r.Str(gen.StrOpt{HostilePc: 45, Long: true})
 		if r.P(30) { // the id is not always the first thing in the message: leading line breaks, blanks, controls, markup
@@ -467,6 +468,18 @@ func c02main(c *Ctx) {
 		}
 		if r.P(3) {
 			msg += strings.Repeat(gen.Pick(r, gen.Hostile)+"0123456789", r.Range(1000, 18000)) // up to ~200 kB
+		}
+		if r.P(4) {
+			// a message of several lines one of which (not the first) is 64 KiB or longer, with a marked line behind it
+			msg = id + " head\n" + strings.Repeat("0123456789abcdef", 4096+r.Intn(3)) + "\nc02tail-" + id[5:]
+			longLine = true
+			c.R.Add("calls_with_a_continuation_line_of_64KiB_or_more", 1)
+		}
+		if r.P(5) {
+			// the application asked for a wide message column (SetMessageMinimalWidth above 80)
+			slog.SetMessageMinimalWidth(gen.Pick(r, []int{81, 100, 118, 200}))
+			defer slog.SetMessageMinimalWidth(36)
+			c.R.Add("calls_with_a_message_column_wider_than_80", 1)
 		}
 		blank := false
 		// Println family & blank messages
@@ -699,6 +712,10 @@ func c02main(c *Ctx) {
 			for _, e := range es {
 				if why := wholeRecord(f, e.Data, id, blank, c.Testing); why != "" {
 					c.R.Violation(idx, "whole-record", "C02/whole-record/"+f.String()+"/"+feature, fmt.Sprintf("payload at %s is not one whole record: %s: %s", wid, why, q(clip(string(e.Data), 600))), desc)
+					return
+				}
+				if longLine && id != "" && !blank && mode == "verb" && !bytes.Contains(e.Data, []byte("c02tail-")) {
+					c.R.Violation(idx, "whole-record", "C02/whole-record/"+f.String()+"/long-continuation-line", fmt.Sprintf("payload at %s (%d bytes) lacks the last line of the message (it stands behind a line of 64 KiB or more): %s ... %s", wid, len(e.Data), q(clip(string(e.Data), 200)), q(string(e.Data[max0(len(e.Data)-120):]))), desc)
 					return
 				}
 			}
